@@ -8,6 +8,7 @@ package main
 import (
 	"crypto/sha1"
 	"encoding/json"
+	"errors"
 	"flag"
 	"fmt"
 	"os"
@@ -18,6 +19,7 @@ import (
 	"strconv"
 	"strings"
 	"sync"
+	"syscall"
 	"time"
 
 	"verif/mc/explore"
@@ -241,7 +243,16 @@ func check(args []string) int {
 	merged := map[string]*explore.SubStats{}
 	var order []string
 	var violations []explore.Violation
+	inconclusive := 0
 	for i, r := range results {
+		if r.err != nil && killedBySignal(r.err) {
+			// SIGKILL comes from outside the process (the kernel's out-of-memory killer, an operator):
+			// nothing the code under test can do to itself. The run is inconclusive, not a violation.
+			sub, cs := explore.ReadCrumb(r.crumb)
+			fmt.Printf("INCONCLUSIVE property=%s worker %d was killed from outside (SIGKILL: out of memory?) while at sub=%s case=%s\n", id, i, sub, strconv.Quote(trunc(cs, 160)))
+			inconclusive++
+			continue
+		}
 		if r.err != nil {
 			sub, cs := explore.ReadCrumb(r.crumb)
 			v := explore.Violation{Property: id, Sub: sub, Key: "crash/worker", Rendered: cs,
@@ -314,7 +325,7 @@ func check(args []string) int {
 	wall := time.Since(start).Seconds()
 	// summary
 	var tot struct{ exec, states, trans, valid, nontriv, undecided int64 }
-	exhaustive := true
+	exhaustive := inconclusive == 0
 	outcomes := 0
 	for _, s := range subs {
 		tot.exec += s.Executions
@@ -389,6 +400,9 @@ func check(args []string) int {
 	}
 	if totalViol > 0 {
 		return 1
+	}
+	if inconclusive > 0 {
+		return 2 // no verdict: part of the space was not explored
 	}
 	return 0
 }
@@ -551,4 +565,15 @@ func trunc(s string, n int) string {
 		return s[:n] + "…"
 	}
 	return s
+}
+
+// killedBySignal: the worker process ended by SIGKILL.
+func killedBySignal(err error) bool {
+	var ee *exec.ExitError
+	if errors.As(err, &ee) {
+		if ws, ok := ee.Sys().(syscall.WaitStatus); ok && ws.Signaled() && ws.Signal() == syscall.SIGKILL {
+			return true
+		}
+	}
+	return false
 }
